@@ -287,13 +287,15 @@ def main(argv):
         exit_code = 1
     # undecided units: bounded stand-in (run-time contract checks on generated inputs)
     standin = []
+    standin_done = set()
     for r in undecided:
         print('  UNDECIDED unit %s %s: %s' % (r['name'], r['config'], r['reason'][:300]))
         for o in r['obs']:
             if o['status'] == 'unknown':
                 print('     unknown: %s %s %s' % (o['kind'], o['descr'][:120], o['detail'][:120]))
-        if r['kind'] != 'contract':
+        if r['kind'] != 'contract' or r['name'] in standin_done:
             continue
+        standin_done.add(r['name'])
         cd = find_cdef(r['name'])
         n = 300 if tier == 'quick' else 5000
         bad, ran = bounded_standin(cd, r['config'].split('#')[0], rng, n)
@@ -359,7 +361,7 @@ def main(argv):
 
 def bounded_standin(cd, chain, rng, n):
     fn, owner, kind = verify.resolve_target(cd.target)
-    gens = {}
+    gens = None
     bad = []
     ran = 0
     import signal
